@@ -3,3 +3,4 @@ pub mod rng;
 pub mod wire;
 pub mod progs;
 pub mod session;
+pub mod trace;
